@@ -81,6 +81,8 @@ Definition V_K8S : bytes := Eval compute in b "k8s".
 Definition PCNS : bytes := Eval compute in b "pcns.".
 Definition PCSA : bytes := Eval compute in b "pcsa.".
 Definition KNS : bytes := Eval compute in b "kns.".
+Definition KSA : bytes := Eval compute in b "ksa.".
+Definition DOT : bytes := Eval compute in b ".".
 Definition T_DEFAULT : bytes := Eval compute in b "default".
 Definition S_TCP : bytes := Eval compute in b "tcp".
 Definition S_UDP : bytes := Eval compute in b "udp".
@@ -375,6 +377,10 @@ Definition conv_np : netpol -> cpolicy := conv_np_v false.
    label of the same key; an association list where the first binding counts) *)
 Definition profile_labels (nsname : bytes) (nslabels : labels) : labels :=
   (PCNS ++ L_NAME, nsname) :: map (fun kv => (PCNS ++ fst kv, snd kv)) nslabels.
+
+(* ServiceAccountToProfile + profile processor *)
+Definition sa_profile_labels (saname : bytes) (salabels : labels) : labels :=
+  (PCSA ++ L_NAME, saname) :: map (fun kv => (PCSA ++ fst kv, snd kv)) salabels.
 
 (* pod -> WorkloadEndpoint labels (workload_endpoint_default.go) then the workload-endpoint update
    processor (drops pcns./pcsa. keys, sets the service-account label) *)
